@@ -42,8 +42,8 @@ const (
 // c12Alphabet25519 builds the operand alphabet (see DESIGN §2 C12).
 func c12Alphabet25519(thorough bool) (all, key []bf.Operand, describe map[string]interface{}) {
 	wide := []uint64{0, 1, 2, 18, 19, 20, 37, 38, 39, 1<<32 - 1, 1 << 32, c12b63 - 1, c12b63, c12m1 - 38, c12m1 - 37, c12m1 - 19, c12m1 - 18, c12m1}
-	low := []uint64{0, 1, c12b63, c12m1 - 18, c12m1}     // 2^64-19
-	top := []uint64{0, 1, c12b63 - 1, c12b63, c12m1}     // 2^63-1 is the top limb of p
+	low := []uint64{0, 1, c12b63, c12m1 - 18, c12m1} // 2^64-19
+	top := []uint64{0, 1, c12b63 - 1, c12b63, c12m1} // 2^63-1 is the top limb of p
 	away := 1
 	if thorough {
 		low = []uint64{0, 1, c12b63 - 1, c12b63, c12m1 - 37, c12m1 - 18, c12m1}
@@ -99,7 +99,7 @@ func TestVerifC12_fp25519(t *testing.T) {
 	all := f.Prepare("e", ops)
 	r.Set("alphabet", desc)
 	r.Set("unreduced_elements", all.Unred)
-	r.Rule("operands: 32-byte strings built as limb products (per-limb cores, all elements <= k limbs away from 00../FF.. over an 18-value limb list), the integer alphabet around limb boundaries, named neighbours of p, 2p, 2^255, 2^256 and 16+16 pseudo-random values; a distinct case is one (operation, operand tuple); binary ops run on ALL ordered pairs, each with a junk-filled output and the aliasing patterns z=x, z=y, x=y, z=x=y; Distinct registers each ordered pair once (under Mul) and every unary / predicate / special case")
+	r.Rule("operands: 32-byte strings built as limb products (per-limb cores, all elements <= k limbs away from 00../FF.. over an 18-value limb list), the integer alphabet around limb boundaries, named neighbours of p, 2p, 2^255, 2^256 and 16+16 pseudo-random values; pair sweeps above 1.5e6 cases are counted by the ordered_pairs counters instead of being hashed into distinct_nontrivial; a distinct case is one (operation, operand tuple); binary ops run on ALL ordered pairs, each with a junk-filled output and the aliasing patterns z=x, z=y, x=y, z=x=y; Distinct registers each ordered pair once (under Mul) and every unary / predicate / special case")
 	r.NotExhaustive("operands are the declared limb/integer alphabet, not all 2^256 strings")
 
 	bin := []bf.BinOp{
@@ -108,7 +108,7 @@ func TestVerifC12_fp25519(t *testing.T) {
 		{Name: "Mul", Do: func(z, x, y bf.Elem) { fp.Mul(z.(*fp.Elt), x.(*fp.Elt), y.(*fp.Elt)) }, Ref: bf.RefMul},
 	}
 	for _, op := range bin {
-		f.CheckBin(r, op, all, all, op.Name == "Mul")
+		f.CheckBin(r, op, all, all, op.Name == "Mul" && bf.HashPairs(all.Len()*all.Len()))
 	}
 	r.Count("ordered_pairs", all.Len()*all.Len())
 
